@@ -4,6 +4,7 @@ VERUS_UNITS = {
     # name: template, properties served, rlimit
     'sketch': dict(template='contracts/sketch.rs', props=['C14', 'C08', 'C13'], rlimit=30),
     'config': dict(template='contracts/config.rs', props=['C17', 'C05', 'C06', 'C08'], rlimit=30),
+    'sync_admit': dict(template='contracts/sync_admit.rs', props=['C12', 'C13', 'C04', 'C08'], rlimit=30),
     'sync': dict(template='contracts/sync.rs', props=['C01', 'C03', 'C04', 'C05', 'C06', 'C07', 'C08', 'C10', 'C17'], rlimit=30),
     'udeques': dict(template='contracts/udeques.rs', props=['C01', 'C03', 'C05', 'C07', 'C08', 'C10', 'C11', 'C12', 'C13', 'C17'], rlimit=30),
     'unsync': dict(template='contracts/unsync.rs', props=['C01', 'C03', 'C04', 'C05', 'C06', 'C07', 'C08', 'C10', 'C11', 'C12', 'C13', 'C14', 'C15', 'C17'], rlimit=50),
